@@ -93,6 +93,18 @@ func (r *rewriter) rewriteCall(c *astutil.Cursor, call *ast.CallExpr) {
 				return
 			}
 			st.Close++
+			if es, ok := c.Parent().(*ast.ExprStmt); ok && es.X == call && r.hb && len(call.Args) == 1 {
+				// func() { c := ch; Yield; ChanRel(c, true); close(c) }()
+				chv := r.tmp("c")
+				lit := &ast.FuncLit{Type: &ast.FuncType{Params: &ast.FieldList{}}, Body: &ast.BlockStmt{List: []ast.Stmt{
+					&ast.AssignStmt{Lhs: []ast.Expr{chv}, Tok: token.DEFINE, Rhs: []ast.Expr{call.Args[0]}},
+					&ast.ExprStmt{X: r.rtCall("Yield", r.site(call, "close"))},
+					&ast.ExprStmt{X: r.rtCall("ChanRel", chv, ast.NewIdent("true"))},
+					&ast.ExprStmt{X: &ast.CallExpr{Fun: ast.NewIdent("close"), Args: []ast.Expr{chv}}},
+				}}}
+				c.Replace(&ast.CallExpr{Fun: lit})
+				return
+			}
 			r.wrapYield(c, call, "close", nil)
 			return
 		}
@@ -130,6 +142,19 @@ func (r *rewriter) rewriteCall(c *astutil.Cursor, call *ast.CallExpr) {
 			c.Replace(r.rtCall("Wg"+f.Name(), args...))
 		}
 		return
+	}
+	if r.hb && full == "(*sync.Once).Do" && !r.noWrap[call] {
+		if p := r.recvPtr(sel); p != nil {
+			c.Replace(r.rtCall("OnceDo", r.site(call, "once"), p, call.Args[0]))
+			return
+		}
+	}
+	if r.hb && f.Name() == "Err" && sig != nil && sig.Recv() != nil && sig.Params().Len() == 0 && !r.noWrap[call] {
+		if t := r.typeOf(sel.X); t != nil && t.String() == "context.Context" {
+			// cancel() happens before an Err() that reports it: a synchronisation the simulator does not see
+			r.wrapYield(c, call, "ctxerr", sig)
+			return
+		}
 	}
 	// Lock/Unlock through an interface (record.Record)
 	if sig != nil && sig.Recv() != nil && sig.Params().Len() == 0 && sig.Results().Len() == 0 {
@@ -190,7 +215,9 @@ func (r *rewriter) wrapYield(c *astutil.Cursor, call *ast.CallExpr, kind string,
 		return
 	}
 	res := ""
-	if sig != nil && sig.Results().Len() == 1 {
+	if kind == "ctxerr" {
+		res = "error"
+	} else if sig != nil && sig.Results().Len() == 1 {
 		res = basicTypeName(sig.Results().At(0).Type())
 	}
 	if tv, ok := r.pkg.TypesInfo.Types[call]; ok && res == "" && tv.Type != nil {
